@@ -50,6 +50,8 @@ def case(root: str, kinds: List[str], terminal: str, pre: bool) -> Optional[str]
     st3 = stackscope.extract(x)
     if st3.frames:
         return f"exhausted object still has frames {st3.frames}"
+    if st3.leaf is not None or st3.error is not None:
+        return f"exhausted object: leaf {st3.leaf!r}, error {st3.error!r} (nothing is left to report)"
     return None
 
 
